@@ -6,6 +6,26 @@ STD_ASSUME_PURE = [
 ]
 
 PROPS = {
+    "C03": {
+        "lean_modules": ["RdestModel.Props.C03"],
+        "cases": {"quick": 2000, "thorough": 100000},
+        "rule": "random geometries: piece length in {1} U {1..40} U {16384}, 1..8 files with lengths in {0, pl-1, pl, pl+1, <pl, <3pl} (biased to the "
+                "boundaries, several files inside one piece, zero-length files), random content; the harness writes the correct piece files into a "
+                "scratch directory, runs the real extractor (ex) and returns every output file's bytes; geo = pieces_num, total_length, "
+                "piece_length(i) for every i and file_piece_ranges; compared with extractImpl/pieceLength (correspondence) and with extractSpec = "
+                "content slices (oracle); distinct = distinct argument lines",
+        "assumptions": STD_ASSUME_PURE + ["the piece files hold the verified pieces (C01); std::fs read/seek/write behave as a byte array"],
+    },
+    "C04": {
+        "lean_modules": ["RdestModel.Props.C04"],
+        "cases": {"quick": 1500, "thorough": 60000},
+        "rule": "names and paths built from the parts {a, b, .., ., '', c.txt, ..., ..a, a.., ' ', x/y, non-ASCII, -}, random strings over {a . /}, "
+                "leading '/', '../' prefixes and absolute paths pointing into a canary directory next to the download directory; paths = the output "
+                "paths computed by file_piece_ranges (component-wise) vs the model; exq = real extraction inside <jail>/cwd, the jail sitting 24 directories below a per-case scratch directory, followed by a "
+                "recursive listing of the whole scratch directory: anything outside <jail>/cwd/ is a violation; single- and multi-file torrents; distinct = distinct lines",
+        "assumptions": STD_ASSUME_PURE + ["symlinks already present in the download directory and non-Unix path syntax are outside",
+                                           "'multi-file' means more than one file (the implementation places a one-element files list directly in the download directory)"],
+    },
     "C06": {
         "lean_modules": ["RdestModel.Props.C06"],
         "cases": {"quick": 5000, "thorough": 150000},
